@@ -36,6 +36,8 @@ LEVEL_TEXT = ("Theorem over all update histories of the RIB model: what a query 
               "histories of real BMP/BGP bytes whose RIB answers are compared with the model and with the property's own reading (an ideal RIB keyed "
               "by wire identity).")
 DESIGN_REF = "DESIGN.md section 6, C01"
-LEVEL_NOTE = ("Trusted: Coq kernel, extraction + OCaml driver, Rust harness. The end-to-end statement (wire identity level) is checked by the correspondence "
-              "engine against the executable spec; the Coq theorems are per layer (RIB by ingress id; BMP step; register).")
+LEVEL_NOTE = ("Trusted: Coq kernel, extraction + OCaml driver, Rust harness. The end-to-end statement (wire identity level) is proved on the pipeline model "
+              "(Pipe/PipeCompose.v, C01_pipeline_refines_ideal / C01_pipeline_rib_answer: every history below the u32 id counter with BMP router keys below "
+              "1000 and announced families below 4, outside the classes of known findings C02-1 and C03-1) and is checked on the implementation by the "
+              "correspondence engine against the executable spec.")
 TECHNIQUE = "Coq proof by induction over update histories (refinement to a last-event spec) + model/implementation correspondence"
